@@ -38,7 +38,7 @@ PLAN = dict(
           "end state is B overlaid with the calls); extreme sizes over FILE_SIZE x SIZE_PKG. Non-trivial = at "
           "least one optional variable set and at least one awkward value (empty, contains '=', non-ASCII, blank "
           "at either end, control character, negative or > 2^53 size); distinct = distinct canonical text of M "
-          "by 64-bit fingerprint. Later additions: values related to each other (see C08); every third print is preceded by one into a sink that fails after a few bytes. Round 7: two to six values of 4 KiB / 64 KiB / 128 KiB (thorough 1 MiB) at several places of one entry. Round 9: the list-count ladder - exactly n lines in a list variable for n = 100, 256, 500, 1000, 1024, 2000, 4096, 5000, 10000 (thorough: up to 100000), one less, one more; budgets proportional to the bytes of the entry for the huge-value cases."),
+          "by 64-bit fingerprint. Later additions: values related to each other (see C08); every third print is preceded by one into a sink that fails after a few bytes. Round 7: two to six values of 4 KiB / 64 KiB / 128 KiB (thorough 1 MiB) at several places of one entry. Round 9: the list-count ladder - exactly n lines in a list variable for n = 100, 256, 500, 1000, 1024, 2000, 4096, 5000, 10000 (thorough: up to 100000), one less, one more; budgets proportional to the bytes of the entry for the huge-value cases. Round 10: integers respelt in the text that is parsed ('+N', '0N', '-0'): if the text is accepted and the getter returns N, the printed form must be the canonical one."),
     exhaustive={"quick": "value class x variable sweep: 5 awkward classes x 21 string/multi-line variables x 8 rounds; typed sweep: every value of each variable's own dictionary x 26 decorations, every generic token and variable-name spelling plain and once decorated, one value of every other variable's dictionary, in each of the 21 string/multi-line variables; 9 x 9 extreme size pairs",
                 "thorough": "value class x variable sweep: 5 awkward classes x 21 string/multi-line variables x 64 rounds; the typed sweep x 6 rounds; 9 x 9 extreme size pairs"},
     assumptions=[
